@@ -1417,6 +1417,7 @@ func ruleNumWrite(c *Ctx) {
 		c.Undecided("addNumber:paths", p.Pos(fd), "too many paths")
 		return
 	}
+	argReported := false
 	for _, pa := range paths {
 		r := pa.Ret()
 		if r == nil || len(r.Results) != 1 {
@@ -1453,6 +1454,30 @@ func ruleNumWrite(c *Ctx) {
 			case *ast.AssignStmt:
 				if len(s.Rhs) == 1 && len(s.Lhs) == 2 {
 					if call, ok := s.Rhs[0].(*ast.CallExpr); ok && p.CalleeName(call) == "parseNumber" {
+						// the whole remaining input must be handed on: a shortened view silently truncates long literals
+						okArg := false
+						if len(call.Args) == 1 && len(fd.Type.Params.List) > 0 {
+							if id, ok := ast.Unparen(call.Args[0]).(*ast.Ident); ok && p.ObjOf(id) == p.ObjOf(fd.Type.Params.List[0].Names[0]) {
+								okArg = true
+							}
+						}
+						if okArg {
+							// … and the parameter itself must not have been re-sliced before
+							ast.Inspect(fd.Body, func(n ast.Node) bool {
+								if as, ok := n.(*ast.AssignStmt); ok {
+									for _, l := range as.Lhs {
+										if id, ok := l.(*ast.Ident); ok && p.ObjOf(id) == p.ObjOf(fd.Type.Params.List[0].Names[0]) {
+											okArg = false
+										}
+									}
+								}
+								return true
+							})
+						}
+						if !okArg && !argReported {
+							argReported = true
+							c.Bad("addNumber:argument", p.Pos(call), "addNumber does not pass its input buffer unchanged to parseNumber ("+p.Str(call)+"): a shortened view converts only a prefix of long literals", "`[1` followed by 70 zeros `]`")
+						}
 						if a, ok := s.Lhs[0].(*ast.Ident); ok {
 							tagObj = p.ObjOf(a)
 						}
